@@ -243,16 +243,45 @@ end Ordered
 section Floor
 variable {K : Type} [Field K] [LinearOrder K] [IsStrictOrderedRing K] [FloorRing K]
 
-/-- `tversky_index` rejects both documented weight shapes whenever the prediction is binary
-    `(N, 1, …X)` (the single-channel weight is repeated `max(2, C) = 2` times). -/
-theorem tverskyPrep_weight_binary (N : Nat) (sp : List Nat) (hsp : 2 ≤ sp.length) (x y w : T K)
+/-- `tversky_index` accepts both documented weight shapes for a binary prediction `(N, 1, …X)`
+    (since fix b020f45 a single-channel weight is only repeated when `y` has several channels) and
+    uses the weight as given. -/
+theorem tverskyPrep_weight_binary_ok (N : Nat) (sp : List Nat) (hsp : 2 ≤ sp.length) (x y w : T K)
     (hx : x.shape = N :: 1 :: sp) (hy : y.shape = N :: 1 :: sp)
-    (hw : w.shape = N :: 1 :: sp ∨ w.shape = N :: sp) (alpha beta eps : K) (b : Bool) :
-    tverskyPrep x y (some w) alpha beta eps b = .error "err:value:weight-shape" := by
+    (hw : w.shape = N :: 1 :: sp ∨ w.shape = N :: sp) (alpha beta eps : K) :
+    tverskyPrep x y (some w) alpha beta eps false
+      = .ok (N * 1, tverskyAt (prod sp) x.data y.data (some w.data) alpha beta eps, none) := by
   unfold tverskyPrep
   rcases hw with hw | hw <;>
   simp [hx, hy, hw, bind, Except.bind, pure, Except.pure, throw, throwThe, MonadExceptOf.throw] <;>
   rw [if_neg (by omega), if_neg (by omega)]
+
+/-- `tversky_loss` once `tversky_index` succeeded: the four `gamma` branches. -/
+theorem tverskyLossPrep_of_ok (pw : K → K) (x y : T K) (w : Option (T K)) (alpha beta eps : K) (b : Bool)
+    (n : Nat) (ti : Nat → K) (m : Option (Nat → K))
+    (h : tverskyPrep x y w alpha beta eps b = .ok (n, ti, m)) :
+    tverskyLossPrep pw x y w alpha beta eps b none = .ok (n, fun k => 1 - ti k, none) ∧
+    (∀ g : K, 1 < g → tverskyLossPrep pw x y w alpha beta eps b (some g) = .ok (n, fun k => pw (1 - ti k), none)) ∧
+    (∀ g : K, g = 0 ∨ g = 1 → tverskyLossPrep pw x y w alpha beta eps b (some g) = .ok (n, fun k => 1 - ti k, none)) ∧
+    (∀ g : K, g < 1 → g ≠ 0 → tverskyLossPrep pw x y w alpha beta eps b (some g) = .error "err:value:gamma") := by
+  unfold tverskyLossPrep
+  simp only [h, bind, Except.bind, pure, Except.pure, Nat.cast_one, Nat.cast_zero]
+  refine ⟨trivial, ?_, ?_, ?_⟩
+  · intro g hg
+    have h0 : (0 : K) < g := lt_trans zero_lt_one hg
+    simp [h0, hg]
+  · rintro g (rfl | rfl) <;> simp
+  · intro g hg hne
+    have : g < 0 ∨ 0 < g := lt_or_gt_of_ne hne
+    have h1 : ¬ (1 : K) < g := not_lt.mpr hg.le
+    simp [this, h1, hg, throw, throwThe, MonadExceptOf.throw]
+
+/-- errors of `tversky_index` are passed on unchanged by `tversky_loss`. -/
+theorem tverskyLossPrep_of_error (pw : K → K) (x y : T K) (w : Option (T K)) (alpha beta eps : K) (b : Bool)
+    (gamma : Option K) (e : String) (h : tverskyPrep x y w alpha beta eps b = .error e) :
+    tverskyLossPrep pw x y w alpha beta eps b gamma = .error e := by
+  unfold tverskyLossPrep
+  simp only [h, bind, Except.bind]
 
 end Floor
 
